@@ -66,25 +66,34 @@ class Clock:
 
 
 class Cache:
-    def __init__(self, clock):
+    def __init__(self, clock, op=None):
         self.clock = clock
         self.d = {}
+        self.op = op or (lambda name: None)
+
+    @staticmethod
+    def _kind(k):
+        return k.split(":", 1)[0]
 
     def _live(self, k):
         v = self.d.get(k)
         return v is not None and self.clock.t < v[1]
 
     def get(self, k):
+        self.op("cache.get:" + self._kind(k))
         return copy.deepcopy(self.d[k][0]) if self._live(k) else None
 
     def has(self, k):
+        self.op("cache.has:" + self._kind(k))
         return self._live(k)
 
     def set(self, k, v, timeout=None):
+        self.op("cache.set:" + self._kind(k))
         self.d[k] = (copy.deepcopy(dict(v) if isinstance(v, dict) else v), self.clock.t + (timeout if timeout is not None else 10 ** 9))
         return True
 
     def delete(self, k):
+        self.op("cache.delete:" + self._kind(k))
         self.d.pop(k, None)
         return True
 
@@ -126,18 +135,30 @@ class User:
 class Provider:
     """The real integration, with deterministic generators and an observable store."""
 
-    def __init__(self, supported, clock):
+    def __init__(self, supported, clock, op=None, namegen=None):
+        """op(name): called at the top of every storage callback (C19 fault injection);
+        namegen(prefix) -> fresh credential name (default: prefix + n times 'x')."""
         self.clock = clock
         self.ctr = 0
         self.tokens = []
-        self.cache = Cache(clock)
-        reg = {r["id"]: ClientRow(r) for r in registry()}
+        op = op or (lambda name: None)
+        self.cache = Cache(clock, op)
+        rows = {r["id"]: ClientRow(r) for r in registry()}
+
+        class Reg:
+            def get(self, cid):
+                op("query_client")
+                return rows.get(cid)
+        reg = Reg()
+        self.namegen = namegen
         app = Flask(__name__)
         app.config["OAUTH1_SUPPORTED_SIGNATURE_METHODS"] = list(supported)
         app.config["TESTING"] = True
         prov = self
 
         def token_generator():
+            if prov.namegen:
+                return prov.namegen("token")
             n = prov.ctr
             prov.ctr += 1
             return {"oauth_token": "t" + "x" * n, "oauth_token_secret": "s" + "x" * n}
@@ -147,6 +168,7 @@ class Provider:
         register_temporary_credential_hooks(server, self.cache)
 
         def create_token_credential(token, temporary_credential):
+            op("create_token_credential")
             row = TokenRow(token["oauth_token"], token["oauth_token_secret"], temporary_credential.get_client_id(),
                            temporary_credential.get_user_id())
             prov.tokens.append(row)
@@ -155,6 +177,7 @@ class Provider:
         server.register_hook("create_token_credential", create_token_credential)
 
         def query_token(client_id, oauth_token):
+            op("query_token")
             for t in prov.tokens:
                 if t.client_id == client_id and t.oauth_token == oauth_token:
                     return t
@@ -188,6 +211,8 @@ class Provider:
         self.client = app.test_client()
 
     def verifier_gen(self, length):
+        if self.namegen:
+            return self.namegen("verifier")
         n = self.ctr
         self.ctr += 1
         return "v" + "x" * n
